@@ -232,5 +232,15 @@ def float_job():
 
 for _p in ("C07", "C13"):
     JOBS[_p] = JOBS[_p] + [float_job()]
+
+
+def longtext_job():
+    """texts longer than ciborium's scratch buffer (streamed pull by pull); thorough only: TLC needs minutes on 8 KB sequences"""
+    return {"module": "MC_LongText", "spec": "Spec", "invariants": ["InvText", "InvValue", "InvBytes", "InvCut", "InvHolders", "Emit"],
+            "thorough_only": True, "thorough": {"timeout": 2400}}
+
+
+for _p in ("C07", "C13"):
+    JOBS[_p] = JOBS[_p] + [longtext_job()]
 for _p, _f in TRACE_FAMS.items():
     JOBS[_p] = JOBS[_p] + [trace_job(_f)]
